@@ -185,23 +185,62 @@ def run(rep, tier, root=None):
     f = F("zernike_nm")
     I = Interp(ix, opaque={fq("zernikeRadialFunc")})
     IO = Interp(ix, opaque={fq("zernikeRadialFunc")})
-    got = I.returns(f, [n, m, N, rot])
-    want = IO.returns(ix.func(om.name, "noll_mode"), [n, m, N, rot])
+    got = I.paths(f, [n, m, N, rot])
+    want = IO.paths(ix.func(om.name, "noll_mode"), [n, m, N, rot])
 
-    def branch(conds):
-        if any(c.replace(" ", "") == "m==0" for c in conds):
+    def branch(cnf):
+        """sign of m asserted by the evaluated branch conditions of a path"""
+        zero = pos = neg = None
+        for val, truth in cnf:
+            a = val.single_atom() if isinstance(val, Rat) else None
+            if not (isinstance(a, Fn) and a.name == "cmp"):
+                continue
+            op, l, r_ = a.args
+            if same_value(r_, m) and isinstance(l, Rat) and l.is_zero():
+                l, r_ = r_, l
+                op = {"<": ">", ">": "<", "<=": ">=", ">=": "<="}.get(op, op)
+            if not (same_value(l, m) and isinstance(r_, Rat) and r_.is_zero()):
+                continue
+            if op == "==":
+                zero = truth
+            elif op == "!=":
+                zero = not truth
+            elif op == ">":
+                pos = truth
+            elif op == "<":
+                neg = truth
+            elif op == ">=":
+                neg = not truth
+            elif op == "<=":
+                pos = not truth
+        if zero:
             return "m == 0"
-        if any(c.replace(" ", "") == "m>0" for c in conds):
+        if pos or (neg is False and zero is False):
             return "m > 0"
-        return "m < 0"
-    gb = {branch(c): v for c, v in got}
-    wb = {branch(c): v for c, v in want}
-    if set(gb) != {"m == 0", "m > 0", "m < 0"} or len(got) != 3:
-        rep.unknown("Z2.mode-definition", f.fq, "expected the three branches m == 0 / m > 0 / m < 0, found %s" % [c for c, v in got], f.where())
+        if neg or (pos is False and zero is False):
+            return "m < 0"
+        return None
+
+    def with_sign(v, b):
+        """|m| is m on the m > 0 paths and -m on the m < 0 paths"""
+        if not isinstance(v, Rat) or b == "m == 0":
+            return v
+        rep_ = m if b == "m > 0" else -m
+        return v.subst(lambda a: rep_ if (isinstance(a, Fn) and a.name == "abs" and len(a.args) == 1 and same_value(a.args[0], m)) else None)
+    gb, wb = {}, {}
+    dup = False
+    for src, dst in ((got, gb), (want, wb)):
+        for c, cnf, v in src:
+            k_ = branch(cnf)
+            if k_ in dst and not same_value(dst[k_], v):
+                dup = True
+            dst[k_] = v
+    if set(gb) != {"m == 0", "m > 0", "m < 0"} or dup:
+        rep.unknown("Z2.mode-definition", f.fq, "expected the three branches m == 0 / m > 0 / m < 0, found %s" % [c for c, cnf, v in got], f.where())
     else:
         for b in sorted(gb):
-            check_equal(rep, "Z2.mode-definition", "%s[%s] == Noll mode (normalisation, cos/sin, clipping, pupil)" % (f.fq, b), gb[b], wb[b],
-                        f.where(), what="Zernike mode")
+            check_equal(rep, "Z2.mode-definition", "%s[%s] == Noll mode (normalisation, cos/sin, clipping, pupil)" % (f.fq, b),
+                        with_sign(gb[b], b), with_sign(wb[b], b), f.where(), what="Zernike mode")
         rep.sample({"function": f.fq, "m>0": nf(gb["m > 0"], 400)})
 
     # ---------------------------------------------------------------- Z3
